@@ -195,7 +195,12 @@ def body(ctx: C.Ctx, proof: C.ProofStatus) -> C.Result:
         files = gen_dir(rng2, feats)
         for f in feats:
             r.count(f)
-        check_dir(sub, r, sub.tmp / "z", Z.write_config(sub.tmp / "cfg.yml"), files, feats)
+        # every third notes directory lives below a dot-directory (~/.local/share/notes is an ordinary place for one)
+        zd = sub.tmp / ".local" / "share" / "z" if i % 3 == 1 else sub.tmp / "z"
+        if i % 3 == 1:
+            feats.add("zdir_below_dot_directory")
+            r.count("zdir_below_dot_directory")
+        check_dir(sub, r, zd, Z.write_config(sub.tmp / "cfg.yml"), files, feats)
         if i < 2:
             r.sample({"files": {k: v[:300] for k, v in files.items()}})
         return r.line_pairs
@@ -232,7 +237,7 @@ def classify(f: C.Failure, entry: dict) -> bool:
 
 RULE = (
     "directories of 1-5 generated error-free pages (sub-directories, items with and without ZIDs, long create dates, irregular spacing after the "
-    "prefix, look-alike first words, multi-line items, sections) and one bulk page with 140 (thorough: 2650, past the two-character suffixes) ZID-less notes of one date; after `db create`: every note has a ZID in the file, recompiled files == raw index "
+    "prefix, look-alike first words, multi-line items, sections) (every third notes directory below a dot-directory) and one bulk page with 140 (thorough: 2650, past the two-character suffixes) ZID-less notes of one date; after `db create`: every note has a ZID in the file, recompiled files == raw index "
     "rows on every compared field, diff confined to ZID insertion after the prefix, second create and reindex change nothing; non-trivial = directory"
 )
 ASSUME = ["file system atomic", "index read back from raw SQLite rows"]
